@@ -3,6 +3,7 @@ from ..gens import *
 
 ID = "C19"
 LEAN_MODULE = "Ucfg.Props.C19"
+LEVEL_TEXT = "Collector/flag theorems: the first error sticks, settings accumulate as merges with the flag's options, empty values ignored, bare keys mean true."
 CORRESPONDENCE = "Flag.flagSets/collectorAdd ~ flag.NewFlagKeyValue(...).Set / cfgutil.Collector.Add"
 RULE = ("argument sequences (1-8) of key=value / bare key / key= / =value / malformed values at a random position; keys with dots "
         "and indices over an overlapping address space; values in every syntax parse.Value accepts (numbers, bools, quoted strings, "
